@@ -22,7 +22,7 @@ def job(name):
 
 def dispatch(j):
     # late imports so that every module registers its job kinds
-    from . import cpjobs, diffjobs, histjobs, seljobs, concjobs, compjobs  # noqa: F401
+    from . import cpjobs, diffjobs, histjobs, seljobs, concjobs, compjobs, locjobs  # noqa: F401
 
     return REGISTRY[j["kind"]](j)
 
